@@ -26,6 +26,8 @@ pub struct Flags {
     pub many: bool,
     /// the server listens on ::1 and the scripted clients use ::1
     pub v6: bool,
+    /// scripted clients bind a source port in 600..=1024 (a transfer identifier may be any port)
+    pub lowport: bool,
     pub dup: u32,
 }
 
@@ -39,6 +41,7 @@ pub fn parse_flags(s: &str) -> Flags {
         split: s.contains('x'),
         many: s.contains('m'),
         v6: s.contains('v'),
+        lowport: s.contains('p'),
         dup: digits.parse().unwrap_or(0),
     }
 }
@@ -48,7 +51,16 @@ pub fn listener_of(fl: &Flags, port: u16) -> SocketAddr {
 }
 
 pub fn bind_client(fl: &Flags) -> UdpSocket {
-    UdpSocket::bind(if fl.v6 { "[::1]:0" } else { "127.0.0.1:0" }).unwrap()
+    let host = if fl.v6 { "[::1]" } else { "127.0.0.1" };
+    if fl.lowport {
+        // 1024 first (the lowest unprivileged port), then privileged ones; whatever is free
+        for p in (600..=1024u16).rev() {
+            if let Ok(s) = UdpSocket::bind(format!("{}:{}", host, p)) {
+                return s;
+            }
+        }
+    }
+    UdpSocket::bind(format!("{}:0", host)).unwrap()
 }
 
 fn free_port() -> u16 {
@@ -272,8 +284,8 @@ pub fn send_error(sock: &UdpSocket, to: &SocketAddr) {
 }
 
 /// one request and its scripted continuation; returns (r1, conv)
-pub fn converse(listener: SocketAddr, dgram: &[u8]) -> (String, String) {
-    let sock = UdpSocket::bind(if listener.is_ipv6() { "[::1]:0" } else { "127.0.0.1:0" }).unwrap();
+pub fn converse(fl: &Flags, listener: SocketAddr, dgram: &[u8]) -> (String, String) {
+    let sock = bind_client(fl);
     sock.send_to(dgram, listener).unwrap();
     let cls = |a: &SocketAddr| if *a == listener { "L" } else { "T" };
     let first = recv_packet(&sock, ms(40, 1500));
@@ -389,7 +401,7 @@ pub fn req_line(toks: &[&str]) -> String {
         return "bad-op".into();
     }
     let listener: SocketAddr = listener_of(&fl, port);
-    let (r1, conv) = converse(listener, &dgram);
+    let (r1, conv) = converse(&fl, listener, &dgram);
     format!("{} ; conv={} ; fs={}", r1, conv, listing(&root))
 }
 
@@ -576,6 +588,133 @@ pub fn errstop_line(toks: &[&str]) -> String {
     format!("first=data after={}", after)
 }
 
+/// an upload whose client falls silent after `nblocks` full blocks: when does the server give up?  The partial file
+/// disappears (clean-on-error) after MAX_RETRIES acknowledged time-outs; reported in whole seconds (real time).
+/// `wrqsilent <root> <flags> <fs> <wrq-hex> <nblocks>`
+pub fn wrqsilent_line(toks: &[&str]) -> String {
+    if toks.len() != 6 {
+        return "bad-op".into();
+    }
+    let (Some(root_b), Some(dgram), Ok(nblocks)) = (unhex(toks[1]), unhex(toks[4]), toks[5].parse::<usize>()) else {
+        return "bad-op".into();
+    };
+    let root = PathBuf::from(String::from_utf8(root_b).unwrap());
+    let fl = parse_flags(toks[2]);
+    let port = server_port(&root, toks[2]);
+    if !reset_sandbox(&root, &fl, toks[3]) {
+        return "bad-op".into();
+    }
+    let listener: SocketAddr = listener_of(&fl, port);
+    let sock = bind_client(&fl);
+    sock.send_to(&dgram, listener).unwrap();
+    let (mut b, mut tmo) = (512usize, 5u64);
+    let from = match recv_packet(&sock, Duration::from_millis(1500)) {
+        Some((Ok(Packet::Oack(opts)), f, _)) => {
+            for o in &opts {
+                if o.option == tftpd::OptionType::Timeout {
+                    tmo = o.value as u64;
+                }
+                if o.option == tftpd::OptionType::BlockSize {
+                    b = o.value;
+                }
+            }
+            f
+        }
+        Some((Ok(Packet::Ack(0)), f, _)) => f,
+        _ => return "first=other".into(),
+    };
+    let before = listing(&root);
+    for k in 1..=nblocks {
+        let d = Packet::Data { block_num: k as u16, data: gen_bytes(b, k) };
+        sock.send_to(&d.serialize().unwrap(), from).unwrap();
+        let _ = recv_packet(&sock, ms(20, 300));
+    }
+    let started = std::time::Instant::now();
+    let with_upload = listing(&root);
+    // poll until the listing is back to what it was before the upload started (the file is created at once, so compare with
+    // the listing taken before the request only by length of the entry list)
+    let limit = Duration::from_millis(tmo * 1000 * 8 + 1500);
+    let mut gone = None;
+    while started.elapsed() < limit {
+        std::thread::sleep(Duration::from_millis(100));
+        let now = listing(&root);
+        if now != with_upload {
+            gone = Some(started.elapsed());
+            break;
+        }
+    }
+    let _ = before;
+    match gone {
+        // to the nearest second; the server's attempts are whole time-outs
+        Some(d) => format!("first=ok gone_after={}", (d.as_millis() as u64 + 500) / 1000),
+        None => "first=ok gone_after=never".into(),
+    }
+}
+
+/// a download (timeout=1 negotiated, lock-step) in which DATA 2 is "lost", a stale duplicate ACK 1 arrives 0.8 s after it was sent,
+/// the first retransmission of DATA 2 is "lost" as well and the second one is answered: two consecutive failed receive attempts of the
+/// sender, so the transfer has to complete.  (real time, <= 4.5 s)
+/// `staleretx <root> <flags> <fs> <rrq-hex>`
+pub fn staleretx_line(toks: &[&str]) -> String {
+    if toks.len() != 5 {
+        return "bad-op".into();
+    }
+    let (Some(root_b), Some(dgram)) = (unhex(toks[1]), unhex(toks[4])) else { return "bad-op".into() };
+    let root = PathBuf::from(String::from_utf8(root_b).unwrap());
+    let fl = parse_flags(toks[2]);
+    let port = server_port(&root, toks[2]);
+    if !reset_sandbox(&root, &fl, toks[3]) {
+        return "bad-op".into();
+    }
+    let listener: SocketAddr = listener_of(&fl, port);
+    let sock = bind_client(&fl);
+    sock.send_to(&dgram, listener).unwrap();
+    let Some((Ok(Packet::Oack(_)), from, _)) = recv_packet(&sock, Duration::from_millis(1500)) else {
+        return "first=other".into();
+    };
+    sock.send_to(&Packet::Ack(0).serialize().unwrap(), from).unwrap();
+    let Some((Ok(Packet::Data { block_num: 1, data: d1 }), _, _)) = recv_packet(&sock, Duration::from_millis(1500)) else {
+        return "first=nodata".into();
+    };
+    let mut got: Vec<u8> = d1.clone();
+    let blk = d1.len();
+    sock.send_to(&Packet::Ack(1).serialize().unwrap(), from).unwrap();
+    let Some((Ok(Packet::Data { block_num: 2, .. }), _, _)) = recv_packet(&sock, Duration::from_millis(1500)) else {
+        return "first=nodata2".into();
+    };
+    let t2 = std::time::Instant::now();
+    // the stale acknowledgement, late in the retransmission interval
+    std::thread::sleep(Duration::from_millis(800));
+    sock.send_to(&Packet::Ack(1).serialize().unwrap(), from).unwrap();
+    let mut retx = 0usize;
+    let mut want: u16 = 2;
+    let mut done = "no";
+    while t2.elapsed() < Duration::from_millis(4500) {
+        match recv_packet(&sock, Duration::from_millis(50)) {
+            Some((Ok(Packet::Data { block_num, data }), _, _)) if block_num == want => {
+                if want == 2 {
+                    retx += 1;
+                    if retx < 2 {
+                        continue; // the first retransmission is lost
+                    }
+                }
+                got.extend_from_slice(&data);
+                sock.send_to(&Packet::Ack(want).serialize().unwrap(), from).unwrap();
+                want += 1;
+                if data.len() < blk {
+                    done = "ok";
+                    break;
+                }
+            }
+            _ => {}
+        }
+    }
+    if done != "ok" {
+        send_error(&sock, &from);
+    }
+    format!("first=oack retx={} done={} got={}:{}", retx, done, got.len(), fnv(&got))
+}
+
 /// a batch of hostile datagrams from several sources, then a probe request
 pub fn storm_line(toks: &[&str]) -> String {
     if toks.len() < 5 {
@@ -619,6 +758,6 @@ pub fn storm_line(toks: &[&str]) -> String {
             }
         }
     }
-    let (r1, conv) = converse(listener, &probe);
+    let (r1, conv) = converse(&fl, listener, &probe);
     format!("{} ; conv={}", r1, conv)
 }
